@@ -556,7 +556,8 @@ func (db *DB) loadIndexFromDataFiles(fileIds []uint32, nonMergeFileId uint32) er
 				}
 				// 最新数据文件末尾的不完整记录是写入中途崩溃的残留, 其写入从未被确认
 				// 将其截断, 使后续追加的记录紧随最后一条完整记录
-				if err == datafile.ErrIncompleteTail && i == len(fileIds)-1 {
+				// 未正常关闭的内存映射文件保持预分配大小, 任意数据文件都需恢复其逻辑末尾
+				if err == datafile.ErrIncompleteTail && (i == len(fileIds)-1 || dataFile.Preallocated()) {
 					if err := dataFile.TruncateTo(reader.Position()); err != nil {
 						return err
 					}
